@@ -136,6 +136,10 @@ pub mod proto;
 #[cfg(feature = "protobuf")]
 mod proto_ext;
 
+#[cfg(prometheus_verif)]
+#[doc(hidden)]
+pub mod verif_sync;
+
 #[macro_use]
 mod macros;
 mod atomic64;
